@@ -292,4 +292,32 @@ example : FloatOK "0".toList "5".toList := ⟨by decide, by decide, by decide, b
 example : extractDefault "the rate. Defaults to 0.25".toList (some "float".toList) false =
     .ok ⟨"the rate.".toList, some (.float "0.25".toList)⟩ := by decide +kernel
 
+/-! ### the closed value texts in the other typing (companions of `C17_true` / `C17_false_typed`) -/
+
+/-- a closed value text `txt` whose scan and value stage are known: both modes, any prose -/
+theorem C17_closed (p txt : Str) (typ : Option Str) (v : Val) (keep : Bool)
+    (hscan : scanDefault txt false = txt) (hval : valueStage (trimStage txt) typ = .ok v)
+    (hp : NoOccBefore phrase0 (p ++ announce ++ txt) (p.length + 1)) :
+    extractDefault (p ++ announce ++ txt) typ keep = .ok ⟨if keep then p ++ announce ++ txt else p, some v⟩ := by
+  cases keep with
+  | true => rw [extract_announced_keep p _ typ hp hscan, hval]; rfl
+  | false => rw [extract_announced_remove p _ typ hp hscan, hval]; rfl
+
+theorem C17_false (p : Str) (keep : Bool) (hp : NoOccBefore phrase0 (p ++ announce ++ "False".toList) (p.length + 1)) :
+    extractDefault (p ++ announce ++ "False".toList) none keep
+      = .ok ⟨if keep then p ++ announce ++ "False".toList else p, some (.bool false)⟩ :=
+  C17_closed p _ none _ keep (by decide) (by decide) hp
+
+theorem C17_true_typed (p : Str) (keep : Bool) (hp : NoOccBefore phrase0 (p ++ announce ++ "True".toList) (p.length + 1)) :
+    extractDefault (p ++ announce ++ "True".toList) (some "bool".toList) keep
+      = .ok ⟨if keep then p ++ announce ++ "True".toList else p, some (.bool true)⟩ :=
+  C17_closed p _ _ _ keep (by decide) (by decide) hp
+
+/-- `None` as written by `set_default_doc` for a None default is read back as the STRING "None" when no scalar type is
+    declared (what the ReST parser hands on; `Kinds.isNoneVal` treats it as "no value") -/
+theorem C17_none_untyped (p : Str) (keep : Bool) (hp : NoOccBefore phrase0 (p ++ announce ++ "None".toList) (p.length + 1)) :
+    extractDefault (p ++ announce ++ "None".toList) none keep
+      = .ok ⟨if keep then p ++ announce ++ "None".toList else p, some (.str "None".toList)⟩ :=
+  C17_closed p _ none _ keep (by decide) (by decide) hp
+
 end Py
